@@ -57,4 +57,23 @@ LEVELS["C07"] = {
     "note": BASE_NOTE + " Concurrency is modelled at delivery granularity only (coroutine scheduler); data races between statements are outside.",
 }
 
+LEVELS["C01"] = {
+    "text": "Bounded symbolic model checking of the parser against references written from Specification.md, in three layers: literals (C16 harnesses), single "
+            "lines (headline and entry line followed by arbitrary bytes; range templates with symbolic digits), and line structure (all kind sequences of up to "
+            "4/5 lines incl. every rule violation named by the property, digits and summary bytes symbolic). Acceptance must coincide with the reference on both "
+            "sides of a stated don't-care band and accepted records must carry exactly the denoted dates, should-totals, summaries, entry kinds and values.",
+    "note": BASE_NOTE + " Structure is path-enumerated by the document generator (honest split: the solver decides the data inside the lines and the arbitrary tails).",
+}
+LEVELS["C10"] = {
+    "text": "Bounded symbolic model checking of error reporting: for every generated document with an injected rule violation the first error must be on the faulty line "
+            "(as computed by the reference automaton), every error must quote an existing line with position+length inside it, in ascending order, identically for serial "
+            "and parallel parsing in every delivery order, and the terminal and JSON renderings must carry the same numbers.",
+    "note": BASE_NOTE,
+}
+LEVELS["C09"] = {
+    "text": "Bounded symbolic model checking of the print round trip: for every conforming generated document, parse(print(parse(x))) denotes the same records with the same "
+            "notation and print(parse(print(parse(x)))) == print(parse(x)); the re-parse runs on the symbolic printed text, so digits and summary bytes are covered for all values.",
+    "note": BASE_NOTE,
+}
+
 NOT_APPLICABLE = {}
